@@ -78,6 +78,10 @@ func (f *FieldUpdater) Merge(dst, src proto.Message) {
 		writableMask = fmutils.NestedMaskFromPaths(f.writableFields.Paths)
 	}
 
+	// src is filtered below; that is done on a copy, the message belongs to the caller
+	// (who may have read it from another resource, or may write it again elsewhere)
+	src = proto.Clone(src)
+
 	// only allow writing writable fields by resetting non-writable fields in src
 	writableMask.Filter(src)
 
